@@ -13,6 +13,7 @@ ALL_OPS = ['from_study_config', 'from_resource_name', 'suggest', 'add_trial', 'r
            'complete', 'add_measurement', 'stop', 'check_early_stopping', 'delete_trial']
 PROPS = ['NotFoundIsPromised', 'MissingTrialIsPromised', 'FinishedStudySuggestsNothing', 'ExceptionsArePure', 'LifecycleStillHolds']
 DEPLOYMENTS = ['local', 'grpc', 'split']
+HEAVY = 600
 
 
 def consts_for(ctx):
@@ -22,12 +23,16 @@ def consts_for(ctx):
     return [('client_d3', dict(base, MaxDepth=3, Ops=set(ALL_OPS)), 1.0),
             ('client_core_d4', dict(base, MaxDepth=4, Clients={'w1'}, MaxCount=1, MaxDeliver=1, Meas={'m1'},
                                     Ops={'from_study_config', 'suggest', 'complete', 'set_state', 'get_trial', 'optimal_trials',
-                                         'delete_trial', 'add_trial', 'stop'}), 0.5)]
+                                         'delete_trial', 'add_trial', 'stop'}), 0.5),
+            ('client_heavy_d4', dict(base, MaxDepth=4, Clients={'w1'}, MaxCount=1, MaxDeliver=1, Meas={'m1'},
+                                     Ops={'from_study_config', 'suggest', 'complete', 'add_measurement', 'get_trial', 'stop', 'add_trial'}), 0.3)]
   return [('client_d4', dict(base, MaxDepth=4, Ops=set(ALL_OPS)), 0.25),
           ('client_d3_two_studies', dict(base, MaxDepth=3, Studies={'s1', 's2'}, Ops=set(ALL_OPS)), 1.0),
           ('client_core_d5', dict(base, MaxDepth=5, Clients={'w1'}, MaxCount=1, MaxDeliver=1, Meas={'m1'},
                                   Ops={'from_study_config', 'suggest', 'complete', 'set_state', 'get_trial', 'optimal_trials',
-                                       'delete_trial', 'add_trial', 'stop'}), 0.25)]
+                                       'delete_trial', 'add_trial', 'stop'}), 0.25),
+          ('client_heavy_d4', dict(base, MaxDepth=4, Clients={'w1'}, MaxCount=1, MaxDeliver=1, Meas={'m1'},
+                                   Ops={'from_study_config', 'suggest', 'complete', 'add_measurement', 'get_trial', 'stop', 'add_trial'}), 1.0)]
 
 
 def norm_out(op, v):
@@ -90,6 +95,13 @@ def run(ctx, only=None):
       entry = {'name': name, 'distinct_states': res.distinct, 'transitions': len(recs), 'replayed_per_deployment': len(chosen),
                'outcome_classes': {k: sorted(v) for k, v in seen_ops.items()}, 'divergences': {}}
       bad_prefix = {k: set() for k in deps}
+      # 'heavy' configurations: the same abstract measurement tokens stand for measurements carrying HEAVY extra metrics
+      # (a long record travels in replies and, on some error paths, in status details: sizes are part of "every input")
+      ballast = {'zz%03d' % i: float(i) for i in range(HEAVY)} if 'heavy' in name else {}
+      import world
+      for v in world.MEAS.values():
+        v.update(ballast)
+      entry['ballast_metrics_per_measurement'] = len(ballast)
       for rec in sorted(chosen, key=lambda r: len(r['hist'])):
         keys = tuple(replay_mod.canon(c) for c in rec['hist'])
         obs = {}
@@ -108,9 +120,12 @@ def run(ctx, only=None):
             bad_prefix[dk].add(keys)
             sig = dict(dv, deployment=dk[0], via='client-replay')
             entry['divergences'][dk[0]] = entry['divergences'].get(dk[0], 0) + 1
-            ctx.violation(sig, {'kind': 'client', 'deployment': dk[0], 'backend': dk[1], 'conf': conf, 'hist': rec['hist'],
+            ctx.violation(sig, {'kind': 'client', 'deployment': dk[0], 'backend': dk[1], 'conf': conf, 'hist': rec['hist'], 'ballast': len(ballast),
                                 'expected': {'out': rec['out'], 'st': rec['st']}, 'observed': {'out': out, 'st': got}})
         nontrivial.add(replay_mod.canon(rec['hist']))
+      for v in world.MEAS.values():
+        for k in ballast:
+          v.pop(k, None)
       cov['configs'].append(entry)
       ctx.log('  replayed %d behaviours x %d deployments; divergences per deployment: %s' % (len(chosen), len(deps), entry['divergences']))
       ctx.sample({'config': name, 'client_program': chosen[len(chosen) // 2]['hist']})
@@ -125,6 +140,9 @@ def replay(ctx, case):
   c = case['case']
   with tlc.Scratch('c08') as d:
     dep = clientworld.Deployment(c['deployment'], c['backend'], d)
+    import world
+    for v in world.MEAS.values():
+      v.update({'zz%03d' % i: float(i) for i in range(c.get('ballast', 0))})
     w = clientworld.ClientWorld(c['conf'], dep)
     out = None
     for o in c['hist']:
